@@ -230,6 +230,7 @@ class Gen:
         self.r = random.Random(seed)
         self.error_codes = error_codes
         self.big_prob = big_prob
+        self.max_big = 3
         self.stats: dict[str, int] = {}
 
     def count(self, key):
@@ -251,7 +252,7 @@ class Gen:
     def length(self):
         r = self.r
         c = r.random()
-        if c < self.big_prob:
+        if c < self.big_prob and self.stats.get("len:big", 0) < self.max_big:
             self.count("len:big")
             return r.choice([16383, 16384, 32767])
         if c < 0.08:
